@@ -221,6 +221,29 @@ Proof.
   match goal with |- context [Some ?b] => destruct b end; eauto.
 Qed.
 
+Lemma name_ok_f_parts q f s : name_ok_f q f s = true ->
+  name_ok q s = true /\ (f = QFalse -> requires_quotes q s = Some false).
+Proof.
+  unfold name_ok_f. rewrite andb_true_iff. intros [A B]. split; [exact A|]. intros ->. cbn [unq_name_ok] in B.
+  destruct (requires_quotes q s) as [[|]|]; try discriminate; reflexivity.
+Qed.
+
+Theorem quote_f_closed q f s t : qspec_wf q = true -> name_ok_f q f s = true -> quote_f q f s = Some t ->
+  closed_lex q t [ident_token_f q f s].
+Proof.
+  intros W N Q. apply name_ok_f_parts in N as [N NF].
+  destruct f; cbn [quote_f ident_token_f] in *; try (now apply quote_closed).
+  - injection Q as <-. apply closed_quoted. now apply name_ok_parts in N as (_ & P & _).
+  - injection Q as <-. specialize (NF eq_refl). unfold ident_token. rewrite NF.
+    pose proof N as N0. apply name_ok_parts in N as (NE & _ & L & _). destruct s as [|c s]; [congruence|].
+    apply closed_word; [exact W|]. simpl in NF. injection NF as R.
+    rewrite !orb_false_iff, negb_false_iff in R. destruct R as [[[_ _] M] _].
+    unfold legal_match in M. apply andb_true_iff in M as [_ M]. now apply all_legal_nl_forall.
+Qed.
+
+Lemma quote_f_some q f s : s <> [] -> exists t, quote_f q f s = Some t.
+Proof. intro NE. destruct f; cbn [quote_f]; eauto using quote_some. Qed.
+
 (* ------------------------------------------------------------------ string literals *)
 
 Lemma step_string_quote q a : step q (LString a) 39 = ([], LStringClose a).
@@ -324,20 +347,47 @@ Proof.
     + simpl app. apply closed_cons_dot; [exact W|]. now apply IH.
 Qed.
 
-Theorem format_table_closed q name sc t :
-  qspec_wf q = true -> name_ok q name = true -> schema_ok q sc = true ->
-  format_table_name q name sc = Some t ->
-  closed_lex q t (schema_tokens q sc ++ [ident_token q name]).
+Theorem format_table_closed q fn name fs sc t :
+  qspec_wf q = true -> name_ok_f q fn name = true -> schema_ok q fs sc = true ->
+  format_table_name q fn name fs sc = Some t ->
+  closed_lex q t (schema_tokens q fs sc ++ [ident_token_f q fn name]).
 Proof.
   intros W N S F. unfold format_table_name, schema_tokens, schema_ok in *.
-  destruct (schema_given sc) as [s|].
-  - unfold quote_dotted in F. destruct (map_opt (quote q) (split_dot s)) as [parts|] eqn:M; [|discriminate].
-    destruct (quote q name) as [b|] eqn:Q; [|discriminate]. injection F as <-.
-    rewrite join_dot_dotted.
-    + apply (closed_dotted q (split_dot s) W parts b _ S M). now apply quote_closed.
-    + intro E. subst parts. apply map_opt_length in M. simpl in M.
-      pose proof (split_dot_acc_nonempty s []) as NE. unfold split_dot in M. destruct (split_dot_acc [] s); [congruence | discriminate M].
-  - simpl. now apply quote_closed.
+  destruct (schema_given sc) as [s|]; [|simpl; now apply quote_f_closed].
+  destruct (quote_dotted q fs s) as [a|] eqn:QD; [|discriminate].
+  destruct (quote_f q fn name) as [b|] eqn:Q; [|discriminate]. injection F as <-.
+  pose proof (quote_f_closed q fn name b W N Q) as CB.
+  assert (ONE : forall f, f <> Plain -> quote_f q f s = Some a -> name_ok_f q f s = true ->
+                closed_lex q (a ++ 46 :: b) ([ident_token_f q f s; Punct 46] ++ [ident_token_f q fn name])).
+  { intros f _ Qa Na.
+    change (closed_lex q (a ++ (46 :: b)) ([ident_token_f q f s] ++ (Punct 46 :: [ident_token_f q fn name]))).
+    apply closed_app_sep; [now apply quote_f_closed | simpl; now apply dot_strong_sep | now apply closed_cons_dot]. }
+  destruct fs; cbn [quote_dotted] in QD; try (apply ONE; [discriminate | exact QD | exact S]).
+  destruct (map_opt (quote q) (split_dot s)) as [parts|] eqn:M; [|discriminate]. injection QD as <-.
+  rewrite join_dot_dotted.
+  - now apply (closed_dotted q (split_dot s) W parts b _ S M).
+  - intro E. subst parts. apply map_opt_length in M. simpl in M.
+    pose proof (split_dot_acc_nonempty s []) as NE. unfold split_dot in M. destruct (split_dot_acc [] s); [congruence | discriminate M].
+Qed.
+
+(* SQLAlchemy's format_table agrees with alembic's format_table_name unless a plain schema contains a dot *)
+Lemma split_dot_nodot s : forall acc, memN 46 s = false -> split_dot_acc acc s = [rev acc ++ s].
+Proof.
+  induction s as [|c s IH]; intros acc H; cbn [split_dot_acc]; [now rewrite app_nil_r|].
+  unfold memN in H. cbn [existsb] in H. apply orb_false_iff in H as [A B]. rewrite (N.eqb_sym 46 c) in A. rewrite A.
+  rewrite (IH (c :: acc) B). cbn [rev]. now rewrite <- app_assoc.
+Qed.
+
+Lemma format_table_sa_nodot q fn name fs sc :
+  (fs = Plain -> forall s, schema_given sc = Some s -> memN 46 s = false) ->
+  format_table_sa q fn name fs sc = format_table_name q fn name fs sc.
+Proof.
+  intro H. unfold format_table_sa, format_table_name. destruct (schema_given sc) as [s|] eqn:G.
+  - assert (E : quote_dotted q fs s = quote_f q fs s).
+    { destruct fs; try reflexivity. cbn [quote_dotted quote_f]. unfold split_dot. rewrite (split_dot_nodot s [] (H eq_refl s eq_refl)).
+      cbn [rev app map_opt]. destruct (quote q s); reflexivity. }
+    rewrite E. destruct (quote_f q fn name), (quote_f q fs s); reflexivity.
+  - destruct (quote_f q fn name); reflexivity.
 Qed.
 
 (* ------------------------------------------------------------------ tabs *)
@@ -377,6 +427,19 @@ Proof.
   destruct (c =? q_close q); [simpl; now rewrite Hc|]. destruct (q_dblpct q && (c =? 37)); simpl; [reflexivity | now rewrite Hc].
 Qed.
 
+Lemma notab_quote_f q f s t : qspec_wf q = true -> notab s = true -> quote_f q f s = Some t -> notab t = true.
+Proof.
+  intros W N Q. destruct f; cbn [quote_f] in Q; try (now apply (notab_quote q s t W N Q)).
+  - injection Q as <-. apply wf_open_not_tab in W as [O C]. unfold quote_identifier. simpl. rewrite O. simpl.
+    rewrite notab_app. simpl. rewrite C. simpl. rewrite andb_true_r.
+    apply notab_flat_map; [|exact N]. intros c Hc. unfold esc_char.
+    destruct (c =? q_close q); [simpl; now rewrite Hc|]. destruct (q_dblpct q && (c =? 37)); simpl; [reflexivity | now rewrite Hc].
+  - now injection Q as <-.
+Qed.
+
+Lemma name_ok_f_notab q f s : name_ok_f q f s = true -> notab s = true.
+Proof. intro H. apply name_ok_f_parts in H as [H _]. now apply name_ok_parts in H as (_ & _ & _ & H). Qed.
+
 Lemma notab_join_dot parts : forallb notab parts = true -> notab (join_dot parts) = true.
 Proof.
   induction parts as [|p r IH]; [reflexivity|]. simpl forallb. rewrite andb_true_iff. intros [A B].
@@ -397,16 +460,18 @@ Proof.
     rewrite (notab_quote q n p W (name_ok_notab q n Fn) Q). now apply IH.
 Qed.
 
-Lemma notab_format_table q name sc t :
-  qspec_wf q = true -> name_ok q name = true -> schema_ok q sc = true ->
-  format_table_name q name sc = Some t -> notab t = true.
+Lemma notab_format_table q fn name fs sc t :
+  qspec_wf q = true -> name_ok_f q fn name = true -> schema_ok q fs sc = true ->
+  format_table_name q fn name fs sc = Some t -> notab t = true.
 Proof.
   intros W N S F. unfold format_table_name, schema_ok in *. destruct (schema_given sc) as [s|].
-  - unfold quote_dotted in F. destruct (map_opt (quote q) (split_dot s)) as [parts|] eqn:M; [|discriminate].
-    destruct (quote q name) as [b|] eqn:Q; [|discriminate]. injection F as <-.
-    rewrite notab_app. simpl. rewrite (notab_quote q name b W (name_ok_notab q name N) Q), andb_true_r.
+  - destruct (quote_dotted q fs s) as [a|] eqn:QD; [|discriminate].
+    destruct (quote_f q fn name) as [b|] eqn:Q; [|discriminate]. injection F as <-.
+    rewrite notab_app. simpl. rewrite (notab_quote_f q fn name b W (name_ok_f_notab q fn name N) Q), andb_true_r.
+    destruct fs; cbn [quote_dotted] in QD; try (now apply (notab_quote_f q _ s a W (name_ok_f_notab q _ s S) QD)).
+    destruct (map_opt (quote q) (split_dot s)) as [parts|] eqn:M; [|discriminate]. injection QD as <-.
     apply notab_join_dot. now apply (notab_map_quote q (split_dot s) W).
-  - now apply (notab_quote q name t W (name_ok_notab q name N)).
+  - now apply (notab_quote_f q fn name t W (name_ok_f_notab q fn name N)).
 Qed.
 
 Lemma notab_sql_literal t : notab t = true -> notab (sql_literal t) = true.
